@@ -11,7 +11,7 @@ from . import hir as H
 from .hir import Unrecognised
 
 IDENTITY_METHODS = {"as_ref", "as_str", "as_deref", "clone", "to_owned", "borrow", "deref", "as_mut", "into", "iter",
-                    "to_string", "as_slice", "cloned", "to_path_buf", "as_path"}
+                    "to_string", "as_slice", "cloned", "to_path_buf", "as_path", "into_iter", "iter_mut", "copied"}
 import os as _os
 CANON = _os.environ.get("OG_CANON", "1") != "0"
 
@@ -629,11 +629,97 @@ class NF:
             return None
         return None
 
+    def _string_builder(self, pat, rest, env):
+        """text-builder idiom: `let mut s = String::new();` followed by `s.push_str(x)` statements and loops of the form
+        `for (i, x) in it.enumerate() { if i > 0 { s.push_str(SEP) } s.push_str(f(x)) }` (or without separator). The value is the
+        concatenation, loops as joins. None when the local is touched in any other way."""
+        lid = pat["id"]
+        parts = []
+        env2 = env.child()
+
+        def text_of(e, en):
+            v = self.nf(e, en)
+            if v[0] == "format":
+                return list(v[1])
+            if v[0] == "lit" and isinstance(v[1], str):
+                return [("lit", v[1])]
+            return [("hole", v, "display", "?")]
+        for st in rest:
+            k = st.get("k")
+            if k == "Let":
+                if self._mutations(lid, [st]):
+                    return None
+                self.bind_let(st, env2)
+                continue
+            e = H.strip(st.get("e")) if k in ("Semi", "Expr") else None
+            if e is None or not self._mutations(lid, [e]):
+                continue
+            if e.get("k") == "MethodCall" and e["name"] in ("push_str", "push") and len(self._mutations(lid, [e])) == 1:
+                parts += text_of(e["args"][0], env2)
+                continue
+            if e.get("k") == "For":
+                it = self.nf(e["iter"], env2)
+                idx_id = None
+                pat2 = e["pat"]
+                if it[0] == "call" and str(it[1]).rsplit("::", 1)[-1] == "enumerate" and it[2] and pat2.get("k") == "Tuple" and len(pat2["pats"]) == 2:
+                    it = it[2][0]
+                    ip = pat2["pats"][0]
+                    idx_id = ip.get("id") if ip.get("k") == "Binding" else None
+                    pat2 = pat2["pats"][1]
+                src, val, conds = iter_view(it)
+                if conds:
+                    return None
+                env3 = env2.child()
+                bind_pattern(pat2, val, env3)
+                body = H.strip(e["body"])
+                if body.get("k") != "Block":
+                    return None
+                stmts = [x for x in body["b"]["stmts"]] + ([{"k": "Expr", "e": body["b"]["tail"]}] if body["b"].get("tail") else [])
+                sep = ""
+                pieces = []
+                for j, x in enumerate(stmts):
+                    if x.get("k") == "Let":
+                        if self._mutations(lid, [x]):
+                            return None
+                        self.bind_let(x, env3)
+                        continue
+                    xe = H.strip(x.get("e")) if x.get("k") in ("Semi", "Expr") else None
+                    if xe is None:
+                        continue
+                    if xe.get("k") == "If" and not xe.get("else") and idx_id is not None and not pieces and not sep:
+                        c = H.strip(xe["cond"])
+                        a_, b_ = (H.strip(c.get("a")), H.strip(c.get("b"))) if c.get("k") == "Binary" else (None, None)
+                        on_idx = a_ is not None and a_.get("k") == "Path" and a_.get("id") == idx_id and b_.get("k") == "Lit" and b_.get("v") == 0 and c.get("op") in ("Gt", "Ne")
+                        inner = [y for y in H.exprs(xe["then"]) if y.get("k") == "MethodCall" and y["name"] in ("push_str", "push")]
+                        if on_idx and len(inner) == 1 and len(self._mutations(lid, [xe])) == 1:
+                            sv = self.nf(inner[0]["args"][0], env3)
+                            if sv[0] == "lit" and isinstance(sv[1], str):
+                                sep = sv[1]
+                                continue
+                        return None
+                    if xe.get("k") == "MethodCall" and xe["name"] in ("push_str", "push") and len(self._mutations(lid, [xe])) == 1:
+                        pieces += text_of(xe["args"][0], env3)
+                        continue
+                    if self._mutations(lid, [xe]):
+                        return None
+                body_nf = ("format", tuple(pieces)) if not (len(pieces) == 1 and pieces[0][0] == "hole") else pieces[0][1]
+                # element references are in terms of ("elem", src) through iter_view's value
+                parts.append(("hole", ("joinmap", src, body_nf, sep), "display", "?"))
+                continue
+            return None
+        if len(parts) == 1 and parts[0][0] == "hole":
+            return parts[0][1]
+        return ("format", tuple(parts))
+
     def _builder(self, pat, init, rest, env, muts):
         """list-builder idiom: `let mut v = vec![..]; for x in it { v.push(e) }` / straight `v.push(e)`."""
         lid = pat["id"]
         if init[0] == "call" and str(init[1]).endswith(("Vec::<T>::new", "vec::Vec::<T>::new")):
             init = ("list", ())
+        if init[0] == "call" and str(init[1]).endswith(("String::new", "string::String::new")) and not init[2]:
+            sb = self._string_builder(pat, rest, env)
+            if sb is not None:
+                return sb
         if init[0] != "list":
             # `let mut x = <init>; x.clone_from(&y);` at statement level: x == y afterwards
             if len(muts) == 1 and muts[0].get("k") == "MethodCall" and muts[0]["name"] == "clone_from":
@@ -670,12 +756,14 @@ class NF:
                 continue
             if e.get("k") == "For":
                 it = self.nf(e["iter"], env2)
+                src, val, conds = iter_view(it)
                 env3 = env2.child()
-                bind_pattern(e["pat"], ("elem", it), env3)
+                bind_pattern(e["pat"], val, env3)
                 found = self._single_push(lid, e["body"], env3)
                 if found is not None and len(m) == 1:
                     arg_nf, conditional = found
-                    items.append(("star", it, arg_nf) if not conditional else ("star", it, arg_nf, "conditional"))
+                    conditional = conditional or bool(conds)
+                    items.append(("star", src, arg_nf) if not conditional else ("star", src, arg_nf, "conditional"))
                     accounted += 1
                     continue
             return ("unknown", f"local {pat['name']} is mutated through an unrecognised construct")
@@ -1540,7 +1628,7 @@ class CallExpander:
                     if ee.get("k") == "If" and not ee.get("else") and _returned_value(ee["then"]) is not None:
                         folded |= {id(y) for y in H.exprs(ee["then"]) if y.get("k") == "Ret"}
         for x in H.exprs(nb["value"]):
-            if x.get("k") in ("For", "Loop", "Try"):
+            if x.get("k") in ("Loop", "Try"):
                 return None
             if x.get("k") == "Ret" and id(x) not in folded:
                 return None
